@@ -169,6 +169,12 @@ def make_machine(shard):
             st_ = shard.stats
             st_.evaluations += 1
             want = shard.fresh(i, self.oi)
+            if (isinstance(got, dict) and "harness" in got) or (isinstance(want, dict) and "harness" in want):
+                # a wall-clock time-out of the in-process call (machine load) on either side says nothing about the tool
+                st_.inconclusive += 1
+                st_.classes["inconclusive: in-process call timed out"] += 1
+                self.hist.append(i)
+                return
             if self.hist:
                 st_.nontrivial.add(runner.jhash([i, self.oi, self.hist[-6:], how]))
             st_.classes["step after history of length %s" % ("0" if not self.hist else "1-5" if len(self.hist) <= 5 else "6+")] += 1
@@ -251,6 +257,9 @@ def replay_case(case, stats=None):
     stats.evaluations += 1
     va = norm(a.value) if a.kind == "ok" else {"harness": a.kind}
     vb = norm(b.value) if b.kind == "ok" else {"harness": b.kind}
+    if a.kind != "ok" or b.kind != "ok":
+        stats.inconclusive += 1
+        return []
     if va != vb:
         d = first_diff(va, vb) or "?"
         return [runner.Failure("history-dependent", field_of(d), "[%s] `%s` after %d earlier block(s): %s" % (
